@@ -319,6 +319,24 @@ struct OptimisticNamed : IntrusiveQ< cds::gc::HP, optimistic_kind<cds::gc::HP> >
     }
 };
 
+// Hidden variant `ibasket_named` (tie A, Lean machine Algo/Basket): as ibasket_hp, but the nodes the warm-up has left in
+// the list are named too.  BasketQueue::dequeue only marks links; after a warm-up of k enq/deq pairs the list is
+// dummy -> w1 -> … -> wk (all links marked), head = dummy, tail = wk: they are n0, n1, …, nk, new nodes continue with n<k+1>.
+struct BasketNamed : IntrusiveQ< cds::gc::HP, basket_kind<cds::gc::HP> > {
+    typedef IntrusiveQ< cds::gc::HP, basket_kind<cds::gc::HP> > base;
+    void start_naming() override
+    {
+        base::start_naming();
+        auto p = q->m_pHead.load().ptr()->m_pNext.load().ptr();
+        while ( p ) {
+            char nm[32];
+            std::snprintf( nm, sizeof nm, "n%zu", ++named );
+            reg_name( &p->m_pNext, sizeof( p->m_pNext ), nm );
+            p = p->m_pNext.load().ptr();
+        }
+    }
+};
+
 template <bool Elim>
 struct IntrusiveFCQueueV : IQueue {
     struct item : boost::intrusive::list_base_hook<> { long v = 0; };
@@ -403,6 +421,7 @@ struct Fixture {
         else if ( v == "ibasket_hp" ) s.reset( new IntrusiveQ< HP, basket_kind<HP> > );
         else if ( v == "ioptimistic_hp" ) s.reset( new IntrusiveQ< HP, optimistic_kind<HP> > );
         else if ( v == "ioptimistic_named" ) s.reset( new OptimisticNamed );      // hidden: tie A for Algo/Optimistic
+        else if ( v == "ibasket_named" ) s.reset( new BasketNamed );      // hidden: tie A for Algo/Basket
         else if ( v == "imsqueue_dhp" ) s.reset( new IntrusiveQ< DHP, ms_kind<DHP> > );
         else if ( v == "ibasket_dhp" ) s.reset( new IntrusiveQ< DHP, basket_kind<DHP> > );
         else if ( v == "ioptimistic_dhp" ) s.reset( new IntrusiveQ< DHP, optimistic_kind<DHP> > );
